@@ -38,6 +38,21 @@ CHECKS = {
     "C20": ("property-based differential testing of the generator's reported result against the reference evaluators R / K (rapid)",
             "For generated (seed, level, type, options, variable maps) the returned text is read by the harness's own reader and evaluated by R or K; Res must match, the reference must not fail, and the engine's Compile/Eval/TryEval must agree under all 16 subsets. Exploration. One open known finding (level 0 returns a bare atom).",
             "Variables are passed one map per variable in sorted order so that a run is a function of the seed.", "§3 C20"),
+    "C11": ("stateful property-based testing of registration histories with an independent normalisation oracle (rapid)",
+            "Generated histories (pre-populated key maps with boundary keys, GetOrRegisterKey / RegVarAndOp / repeated requests in drawn order, undefined-variable mode) with an invariant after every step (injective, no reassignment), then every variable read back positionally through NewCtxFromVars against the harness's own normalisation of raw values of every documented type. Exploration.",
+            "RegVarAndOp iterates a Go map, so its key assignment order is not a function of the seed (the oracle does not depend on it). Names <= 126 per case.", "§3 C11"),
+    "C13": ("property-based round-trip testing Compile(Dump(e)) with hostile literals + Go native fuzzing of literal contents (rapid)",
+            "Generated programs (prefix and infix sources) with layout-sensitive string literals/constants/identifiers x option subsets x event mode: the dump must recompile in prefix notation, reproduce itself exactly, and compute the same outcomes on four bindings; identical in event/debug mode. Exploration.",
+            "Named constants restricted to values a literal can denote (no double quote, no typed empty list). Root folded to a bare scalar: set aside as the property says.", "§3 C13"),
+    "C14": ("property-based metamorphic testing (re-layout / formatter) against an independent lexer + Go native fuzzing of the formatter (rapid)",
+            "Generated programs re-laid-out with random Unicode white space, comments and directive look-alikes must compile to the identical program; leading directives must be honoured; IndentByParentheses applied 1-3 times must preserve the exact token/comment sequence (independent lexer) on programs and on arbitrary token soups, and compile to the same program. Exploration.",
+            "Trusted: the independent lexer in harness/model (token rules from the property text). Comments compared modulo trailing white space.", "§3 C14"),
+    "C15": ("property-based round-trip testing tree -> infix text -> program against the prefix compilation + exhaustive operator-pair sweep (rapid)",
+            "Generated trees rendered to infix by an independent precedence-table renderer (minimal / redundant parentheses, tight !x, extra white space) must parse back to the same tree, give the same Dump/DumpTable as the prefix form and the same outcomes; all 16x16 operator pairs in both association shapes, inside calls and if, ! against every operator, and 8^3 triples are enumerated on every run. Exploration.",
+            "Symbolic names only in binary (or unary !) position; a ! directly under ! or a tighter operator is parenthesised by the renderer (the precedence table does not define the bare form).", "§3 C15"),
+    "C16": ("property-based metamorphic testing of reordering laws over pairs of cost maps (rapid)",
+            "Generated wide and/or trees over pairwise distinct variables with many equal-cost operands, integer cost maps, a name X: permutation-only, stability, monotonicity under X+=delta, separation under X:=1e12, and evaluation order = dumped order, for all 8 settings of the other optimizations. Exploration.",
+            "Integer-valued finite costs (exact in float64). Trusted: Dump reader.", "§3 C16"),
 }
 
 NOT_YET = {}
